@@ -64,7 +64,7 @@ func (e *Engine) Apply(op *Op) error {
 	e.Stats.Ops++
 	switch op.K {
 	// ------------------------------------------------------------ arrays
-	case "app", "ins", "set", "rem", "get", "pop", "appN", "remN", "setN", "grow", "reset", "badget", "badset", "badins", "badrem":
+	case "app", "ins", "set", "rem", "get", "pop", "appN", "remN", "setN", "grow", "shrink", "reset", "badget", "badset", "badins", "badrem":
 		n := e.pick(op.T, false, true)
 		if n == nil {
 			e.Stats.Skipped++
@@ -76,7 +76,7 @@ func (e *Engine) Apply(op *Op) error {
 		e.noteTarget(n)
 		return e.withIsolation(n, func() error { return e.arrayOp(n, op) })
 	// ------------------------------------------------------------ maps
-	case "mset", "mget", "mhas", "mrem", "mpop", "msetN", "mremN", "mupdN", "mgrow", "mreset", "mbadget", "mbadrem", "mbadhas":
+	case "mset", "mget", "mhas", "mrem", "mpop", "msetN", "mremN", "mupdN", "mgrow", "mshrink", "mreset", "mbadget", "mbadrem", "mbadhas":
 		n := e.pick(op.T, true, false)
 		if n == nil {
 			e.Stats.Skipped++
@@ -254,12 +254,18 @@ func (e *Engine) arrayOp(n *Node, op *Op) error {
 			return err
 		}
 		a = n.HA // acquiring the child may have re-acquired its ancestors
-		if err := e.growUntilStandalone(c); err != nil {
-			return err
-		}
-		if childInlined(c) {
-			e.Stats.Skipped++
-			return nil
+		// half of the time the child is first grown out of its parent; otherwise it is re-assigned as it is
+		// (inlined, usually): an ordinary sequence would not notice "s[i] = s[i]" at all
+		if op.P>>10&1 == 0 {
+			if err := e.growUntilStandalone(c); err != nil {
+				return err
+			}
+			if childInlined(c) {
+				e.Stats.Skipped++
+				return nil
+			}
+		} else if childInlined(c) {
+			e.Stats.label("reassign_same_inlined_child")
 		}
 		var cv atree.Value = c.HA
 		if c.IsMap {
@@ -272,7 +278,7 @@ func (e *Engine) arrayOp(n *Node, op *Op) error {
 		if err != nil {
 			return e.viol("Set(%d) with the container already stored there failed: %v", idx, err)
 		}
-		if id, ok := unwrapStorable(old).(atree.SlabIDStorable); !ok || slabIDToValueID(atree.SlabID(id)) != c.VID {
+		if !storableIsContainer(old, c.VID) {
 			return e.viol("Set(%d) with the container already stored there handed back %v", idx, old)
 		}
 		e.Stats.label("reassign_same_child")
@@ -310,6 +316,9 @@ func (e *Engine) arrayOp(n *Node, op *Op) error {
 				return e.viol("bulk append %d/%d failed: %v", i, total, err)
 			}
 			n.Elems = append(n.Elems, m)
+			if err := e.bulkTick(i, total); err != nil {
+				return err
+			}
 		}
 		e.Stats.label("grow")
 		return nil
@@ -395,9 +404,53 @@ func (e *Engine) arrayOp(n *Node, op *Op) error {
 			if err := e.handBack(old, prev, false, fmt.Sprintf("Remove(%d) element", idx)); err != nil {
 				return err
 			}
+			if err := e.bulkTick(i, op.N); err != nil {
+				return err
+			}
 		}
 		e.Stats.label("remove")
 		e.Stats.label("bulk_remove")
+		return nil
+
+	case "shrink":
+		// remove 50-99 % of the elements one by one (front / back / middle / scattered), with the structural oracles
+		// run DURING the burst: every single removal is an operation, and an invalid intermediate tree (an index slab
+		// left below its minimum until the next merge repairs it) must not go unnoticed
+		if cnt < 8 {
+			e.Stats.Skipped++
+			return nil
+		}
+		total := int(cnt) * (50 + int(op.P%50)) / 100
+		mode := op.P >> 8 % 4
+		for i := 0; i < total && len(n.Elems) > 0; i++ {
+			c := uint64(len(n.Elems))
+			var idx uint64
+			switch mode {
+			case 0:
+				idx = 0
+			case 1:
+				idx = c - 1
+			case 2:
+				idx = c / 2
+			default:
+				idx = mix64(op.P+uint64(i)) % c
+			}
+			old, err := a.Remove(idx)
+			if err != nil {
+				return e.viol("in-range Remove at %d/%d failed: %v", idx, c, err)
+			}
+			prev := n.Elems[idx]
+			n.Elems = append(n.Elems[:idx:idx], n.Elems[idx+1:]...)
+			if err := e.handBack(old, prev, false, fmt.Sprintf("Remove(%d) element", idx)); err != nil {
+				return err
+			}
+			if err := e.bulkTick(i, total); err != nil {
+				return err
+			}
+		}
+		e.Stats.label("remove")
+		e.Stats.label("bulk_remove")
+		e.Stats.label("shrink")
 		return nil
 
 	case "get":
@@ -617,12 +670,16 @@ func (e *Engine) mapOp(n *Node, op *Op) error {
 			return err
 		}
 		m = n.HM // acquiring the child may have re-acquired its ancestors
-		if err := e.growUntilStandalone(c); err != nil {
-			return err
-		}
-		if childInlined(c) {
-			e.Stats.Skipped++
-			return nil
+		if op.P>>10&1 == 0 {
+			if err := e.growUntilStandalone(c); err != nil {
+				return err
+			}
+			if childInlined(c) {
+				e.Stats.Skipped++
+				return nil
+			}
+		} else if childInlined(c) {
+			e.Stats.label("reassign_same_inlined_child")
 		}
 		var cv atree.Value = c.HA
 		if c.IsMap {
@@ -635,7 +692,7 @@ func (e *Engine) mapOp(n *Node, op *Op) error {
 		if err != nil {
 			return e.viol("Set(%s) with the container already stored there failed: %v", short(ck), err)
 		}
-		if id, ok := unwrapStorable(old).(atree.SlabIDStorable); !ok || slabIDToValueID(atree.SlabID(id)) != c.VID {
+		if !storableIsContainer(old, c.VID) {
 			return e.viol("Set(%s) with the container already stored there handed back %v", short(ck), old)
 		}
 		e.Stats.label("reassign_same_child")
@@ -687,6 +744,9 @@ func (e *Engine) mapOp(n *Node, op *Op) error {
 				vd = &VD{K: "s", Z: 2, D: i%7 - 3, N: uint64(i)}
 			}
 			if err := e.mapSet(n, km, vd, false); err != nil {
+				return err
+			}
+			if err := e.bulkTick(i, total); err != nil {
 				return err
 			}
 		}
@@ -766,8 +826,50 @@ func (e *Engine) mapOp(n *Node, op *Op) error {
 			if err := e.mapRemove(n, ck, false); err != nil {
 				return err
 			}
+			if err := e.bulkTick(i, op.N); err != nil {
+				return err
+			}
 		}
 		e.Stats.label("bulk_remove")
+		return nil
+
+	case "mshrink":
+		// as "shrink": 50-99 % of the entries removed one by one, in canonical (digest) order from the front or the
+		// back, or scattered, with the structural oracles run during the burst
+		if len(n.Ents) < 8 {
+			e.Stats.Skipped++
+			return nil
+		}
+		total := len(n.Ents) * (50 + int(op.P%50)) / 100
+		mode := op.P >> 8 % 3
+		var order []string
+		if mode < 2 {
+			order = e.expectedOrder(n, m.Seed())
+			if mode == 1 {
+				for i, j := 0, len(order)-1; i < j; i, j = i+1, j-1 {
+					order[i], order[j] = order[j], order[i]
+				}
+			}
+		}
+		for i := 0; i < total; i++ {
+			var ck string
+			if order != nil {
+				ck = order[i]
+			} else {
+				var ok bool
+				if ck, ok = presentKey(n, mix64(op.P+uint64(i))); !ok {
+					break
+				}
+			}
+			if err := e.mapRemove(n, ck, false); err != nil {
+				return err
+			}
+			if err := e.bulkTick(i, total); err != nil {
+				return err
+			}
+		}
+		e.Stats.label("bulk_remove")
+		e.Stats.label("shrink")
 		return nil
 
 	case "mpop":
@@ -1270,6 +1372,44 @@ func (e *Engine) rejectedOp(op *Op) error {
 		return nil
 	}
 	return nil
+}
+
+// bulkTick runs the whole-state structural oracles inside a bulk operation (after its i-th primitive step of total):
+// after every step on small states, less often on large ones so that a burst costs about 60 000 element visits.
+func (e *Engine) bulkTick(i, total int) error {
+	if e.quiet {
+		return nil
+	}
+	every := 1 + total*e.modelSize()/60_000
+	if (i+1)%every != 0 {
+		return nil
+	}
+	e.Stats.Add("mid_bulk_checks", 1)
+	if e.Or.Verify {
+		if err := e.VerifyAll(); err != nil {
+			return err
+		}
+	}
+	if e.Or.Tree || e.Or.Sizes || e.Or.Health || e.Or.Inline || e.Or.RoundTrip {
+		if err := e.checkStructure(); err != nil {
+			return err
+		}
+	}
+	return nil
+}
+
+// storableIsContainer reports whether s (possibly wrapped) denotes the container with value id vid: a reference
+// to its root slab, or its inlined root slab itself.
+func storableIsContainer(s atree.Storable, vid atree.ValueID) bool {
+	switch x := unwrapStorable(s).(type) {
+	case atree.SlabIDStorable:
+		return slabIDToValueID(atree.SlabID(x)) == vid
+	case atree.ArraySlab:
+		return slabIDToValueID(x.SlabID()) == vid
+	case atree.MapSlab:
+		return slabIDToValueID(x.SlabID()) == vid
+	}
+	return false
 }
 
 // childInlined reports whether nested container c is currently inlined (through its designated handle).
